@@ -461,7 +461,7 @@ func c08Plan(c *Ctx, planNo int, T time.Duration) {
 	limit := T*time.Duration(N*K+4) + 20*time.Second
 	select {
 	case <-finished:
-	case <-time.After(limit):
+	case <-liveAfter(limit):
 		c.Res.Eval(1)
 		c.Res.Violate("C08:hang", fmt.Sprintf("plan %d (%d goroutines x %d calls, fixed bind port=%v): calls had not returned %v after the start (every call is bounded by T=%v once it has the port; %d calls in flight)", planNo, N, K, fixed, limit, T, inflight.Load()),
 			map[string]any{"plan": planNo, "fixed_port": fixed, "goroutines": N, "in_flight": inflight.Load(), "library_goroutine": truncateStr(func() string { _, g := libraryGoroutines(); return g }(), 2500)}, int64(planNo))
@@ -742,7 +742,7 @@ func c08ListenCycle(c *Ctx, planNo int) {
 		if err != nil {
 			c.Res.Violate("C08:listen-stop", "Listen returned an error when stopped under traffic: "+err.Error(), nil, int64(planNo))
 		}
-	case <-time.After(5 * time.Second):
+	case <-liveAfter(5 * time.Second):
 		c.Res.Violate("C08:listen-stop", "Listen did not return within 5 s of the stop signal under traffic", nil, int64(planNo))
 	}
 	close(stop)
@@ -1204,7 +1204,7 @@ func c08SlowHandlerShutdown(c *Ctx) {
 			if err != nil {
 				c.Res.Violate("C08:listen-stop", "Listen returned an error when stopped while its handler was busy: "+err.Error(), nil, -7)
 			}
-		case <-time.After(5 * time.Second):
+		case <-liveAfter(5 * time.Second):
 			c.Res.Violate("C08:listen-stop", "Listen did not return within 5 s of the handler coming back (stop signal sent 7 s earlier)", nil, -7)
 		}
 	}
